@@ -88,6 +88,9 @@ def case_st(draw):
         # the caller's request_timeout (default 5): it bounds every single HTTP request, it is
         # not part of the silence bound
         'request_timeout': draw(st.sampled_from([5, 5, 5, 1, 20, 60])),
+        # websocket_extra_options of the caller (threaded client): a timeout of its own for the
+        # WebSocket connection attempt - the heartbeat deadline still governs the reads after it
+        'ws_timeout_opt': draw(st.sampled_from([None, None, None, 60, 120])),
         'prelude': draw(st.sampled_from([[], [], [], ['cdisc'], ['sdisc'], ['drop'],
                                          ['drop', 'cdisc'], ['sdisc', 'drop']])),
     }
@@ -107,8 +110,11 @@ def _check_case(case, ctx=None):
            'async_handlers': False}
     H = TClientHarness if impl == 'thread' else AClientHarness
     RT = case.get('request_timeout', 5)
+    ckw = {'request_timeout': RT}
+    if impl == 'thread' and case.get('ws_timeout_opt'):
+        ckw['websocket_extra_options'] = {'timeout': case['ws_timeout_opt']}
     h = H(cfg, faults=case['faults'], app_kwargs={'engineio_path': case['path']},
-          client_kwargs={'request_timeout': RT})
+          client_kwargs=ckw)
     cl = h.client
     ftrig = '+'.join(sorted('%s:%s' % (f['on'], f['kind']) for f in case['faults'])) or 'no-fault'
     try:
@@ -117,7 +123,10 @@ def _check_case(case, ctx=None):
         h.world.app_log.connect_sends = list(greets)
         c = h.client_call('connect', case['url'], transports=case['transports'],
                           engineio_path=case['path'])
-        h.run_until(lambda: c.done, max(40, 2 * RT + 10))
+        # (each handshake read is bounded by request_timeout - or by the timeout the caller put
+        # into websocket_extra_options, which takes precedence)
+        h.run_until(lambda: c.done, max(40, 2 * RT + 10, 2 * (ckw.get(
+            'websocket_extra_options', {}).get('timeout') or 0) + 10))
         check_urls(h, impl, case, rep)
         uq = urllib.parse.parse_qs(urllib.parse.urlsplit(case['url']).query)
         collides = any(k in uq for k in ('EIO', 'transport', 'sid', 'j'))
